@@ -705,6 +705,15 @@ fn mode_glob(seed: u64, maxlen: usize, nrandom: usize) {
         }
     }
     let n_utf = t.evaluations - n_ascii;
+    // texts may contain the wildcard characters themselves (nick names, user names and real names may): in the text
+    // they are ordinary characters
+    let pats = all_strings(&['a', '*', '?'], ulen);
+    let texts = all_strings(&['a', '*', '?'], ulen);
+    for p in &pats {
+        for s in &texts {
+            check_glob(&mut t, p, s);
+        }
+    }
     let mut r = Rng(seed ^ 0x77);
     let atoms = ["a", "b", "ab", "nick", "!", "@", "~user", "127.0.0.1", "*", "*", "?", "é", "日", "host.example", "zzzzzzzz"];
     for i in 0..nrandom {
@@ -720,10 +729,10 @@ fn mode_glob(seed: u64, maxlen: usize, nrandom: usize) {
                     match c {
                         '*' => {
                             for _ in 0..r.below(3) {
-                                s.push_str(r.pick(&["a", "b", "é", "x"]));
+                                s.push_str(r.pick(&["a", "b", "é", "x", "*", "?"]));
                             }
                         }
-                        '?' => s.push_str(r.pick(&["a", "é", "日"])),
+                        '?' => s.push_str(r.pick(&["a", "é", "日", "?", "*"])),
                         c => {
                             if r.below(12) != 0 {
                                 s.push(c)
